@@ -27,7 +27,7 @@ theorem request_length_exact (r : HttpRequest.Request) :
     (HttpRequest.buildHead r).length = HttpRequest.headLen r :=
   Percival.Proofs.HttpRequest.headLen_exact r
 
-example : HttpRequest.headLen { method := [71, 69, 84], path := [47], headers := [([65], [98]), ([67], [])], body := [] } = 26 := by
+example : HttpRequest.headLen { method := [71, 69, 84], path := [47], headers := [([65], [98]), ([67], [])], body := [] } = 29 := by
   decide
 
 end Percival.C09
